@@ -259,7 +259,7 @@ def validate(group, defs, per_def=300):
         pat = ', '.join('x_' + q for q in ps)
         lines.append(f'def v_{t["lean"]} : List Int := parseInts "{enc}"')
         lines.append(f'partial def go_{t["lean"]} : List Int → List String → List String\n'
-                     f'  | {" :: ".join("x_" + q for q in ps)} :: rest, acc => {lets} go_{t["lean"]} rest (toString ({t["lean"]} {" ".join(ps)}) :: acc)\n'
+                     f'  | {" :: ".join("x_" + q for q in ps)} :: rest, acc => {lets} go_{t["lean"]} rest ((if decide ({t["lean"]}_sideOk {" ".join(ps)}) then toString ({t["lean"]} {" ".join(ps)}) else "?") :: acc)\n'
                      f'  | _, acc => acc.reverse')
         lines.append(f'#eval IO.println (s!"VAL {t["lean"]} " ++ String.intercalate " " (go_{t["lean"]} v_{t["lean"]} []))')
         work.append((t, pts))
@@ -287,7 +287,7 @@ def validate(group, defs, per_def=300):
         for pt, lv in zip(pts, got):
             d = dict(zip(t['params'], [bool(v) if dict(t['binds'].values())[n] == 'Bool' else v for n, v in zip(t['params'], pt)]))
             pv = py_value(t, fn, d)
-            if pv != 'exc' and pv != lv:
+            if pv != 'exc' and lv != '?' and pv != lv:     # '?': a side condition fails there (the theorem must refute it, not the sampler)
                 bad[t['lean']] = f'validation: Lean computes {lv}, Python computes {pv} at {d}'
                 break
     return bad
@@ -329,7 +329,7 @@ def diff_points(groups, limit=16, timeout=600):
             pat = ' '.join(f'| [{", ".join("x_" + q for q in ps)}] => {lets} ' for _ in [0])
             guard = f'decide ({t["guard"]}) && ' if t['guard'] else ''
             lines.append(f'#eval IO.println (s!"PT {t["lean"]} " ++ toString ((({prod}).filter (fun (pt : List Int) => match pt with '
-                         f'{pat}({guard}!(({t["lean"]} {" ".join(ps)}) == ({t["ref"]}))) | _ => false)).take {limit}))')
+                         f'{pat}({guard}(!decide ({t["lean"]}_sideOk {" ".join(ps)}) || !(({t["lean"]} {" ".join(ps)}) == ({t["ref"]})))) | _ => false)).take {limit}))')
     tmp = os.path.join(LEAN, f'.srcdiff_{os.getpid()}.lean')
     with open(tmp, 'w') as f:
         f.write('\n'.join(lines) + '\n')
